@@ -319,7 +319,23 @@ def so3_probes(n):
     return out
 
 
-COVER_C = {"cubochoric": 1.7, "quaternion": 2.6, "haar_euler": 3.3}
+def so3_cell(method, res):
+    """the method's own nominal largest cell (degrees): the resolution for the cubochoric
+    grid; for the two grids that are uniform in a cos / sqrt parameter the first polar step
+    (which shrinks like sqrt(res) only) if that is larger"""
+    if method == "cubochoric":
+        return res
+    if method == "haar_euler":
+        half = SO3._resolution_to_num_steps(res, even_only=True) // 2
+        return max(res, math.degrees(math.acos(1 - 2 / half)))
+    n = SO3._resolution_to_num_steps(res)
+    return max(res, math.degrees(2 * math.asin(math.sqrt(1 / (n - 1)))))
+
+
+# covering radius <= COVER_C[method] * so3_cell(method, res); measured on the unchanged tree
+# (max over groups / strata / resolutions 12, 8, 6, 5): cubochoric 1.23, haar_euler 0.66
+# (outside the Phi = pi hole), quaternion 0.93
+COVER_C = {"cubochoric": 1.6, "quaternion": 1.2, "haar_euler": 0.85}
 ORES = [12.0, 8.0] if TIER == "quick" else [12.0, 8.0, 6.0, 5.0]
 NPROBE = 1600 if TIER == "quick" else 4000
 probes = so3_probes(NPROBE)
@@ -362,22 +378,32 @@ for method in METHODS:
                     arg[upd] = gi
                 ang = chord2angle(best)
                 i = int(np.argmax(ang))
-                worst[stratum] = (ang[i], Pq[i], g[arg[i]])
-                key = f"cover/{method}/{stratum}"
-                measured[key] = max(measured.get(key, 0), float(ang[i] / res))
-            for stratum, (a, p, ge) in worst.items():
-                if a > COVER_C[method] * res:
+                if method == "haar_euler":
+                    # separate the probes whose nearest equivalent lies beyond the last beta row
+                    # (the grid never reaches Phi = pi): they are reported under their own signature
+                    pe = qmul(Pq, g[arg])
+                    Phi = 2 * np.arctan2(np.hypot(pe[:, 1], pe[:, 2]), np.hypot(pe[:, 0], pe[:, 3]))
+                    n_steps = SO3._resolution_to_num_steps(res, even_only=True)
+                    hole = Phi > math.acos(-1 + 2 / (n_steps // 2))
+                    if hole.any():
+                        i = int(np.argmax(np.where(hole, ang, -1)))
+                        worst["Phi-pi-hole/" + stratum] = (ang[i], Pq[i])
+                        key = f"cover/{method}/Phi-pi-hole/res={res}"
+                        measured[key] = max(measured.get(key, 0), float(ang[i] / so3_cell(method, res)))
+                    ang = np.where(hole, -1, ang)
+                i = int(np.argmax(ang))
+                worst[stratum] = (ang[i], Pq[i])
+                key = f"cover/{method}/{stratum}/res={res}"
+                measured[key] = max(measured.get(key, 0), float(ang[i] / so3_cell(method, res)))
+            bound = COVER_C[method] * so3_cell(method, res)
+            for stratum, (a, p) in worst.items():
+                if a > bound:
                     sig = f"cover:{method}:{name}"
-                    if method == "haar_euler":
-                        # hole of the Haar-Euler grid at Phi = pi (beta never reaches pi)?
-                        pe = qmul(p[None, :], ge[None, :])[0]
-                        Phi = 2 * math.atan2(math.hypot(pe[1], pe[2]), math.hypot(pe[0], pe[3]))
-                        n_steps = SO3._resolution_to_num_steps(res, even_only=True)
-                        beta_last = math.acos(-1 + 2 / (n_steps // 2))
-                        if Phi > beta_last - 1e-9:
-                            sig = f"cover:haar_euler:Phi-pi-hole:{name}"
-                    fail(sig, f"orientation (stratum {stratum}) is {a:.2f} deg (> {COVER_C[method]} x {res}) from the "
-                         f"nearest grid point or symmetry-equivalent", dict(rep, probe=p.tolist()))
+                    if stratum.startswith("Phi-pi-hole"):
+                        sig = f"cover:haar_euler:Phi-pi-hole:{name}"
+                    fail(sig, f"orientation (stratum {stratum}) is {a:.2f} deg from the nearest grid point or "
+                         f"symmetry-equivalent: more than {COVER_C[method]} x the grid's nominal cell "
+                         f"{so3_cell(method, res):.2f} deg at resolution {res}", dict(rep, probe=p.tolist()))
 
 # ---- the cubochoric outer layer (rotations by pi) must be sampled: N * (L / N) <= L ?
 L = 0.5 * np.pi ** (2 / 3)
@@ -438,8 +464,20 @@ def s2_probes(n):
     return out
 
 
-S2_C = {"uv": 0.75, "equal_area": 1.7, "normalized_cube": 0.75, "spherified_cube_edge": 0.8,
-        "spherified_cube_corner": 0.85, "icosahedral": 0.75, "hexagonal": 0.8}
+def s2_cell(m, res):
+    """nominal cell of an S2 mesh: the resolution, except for the equal-area mesh whose polar
+    rows are uniform in cos(polar) (first row at acos(1 - 1/steps), documented: the
+    resolution is that of the azimuth only)"""
+    if m == "equal_area":
+        steps = int(np.ceil(90 / res))
+        return max(res, math.degrees(math.acos(1 - 1 / steps)))
+    return res
+
+
+# measured on the unchanged tree (resolutions 15 ... 1): uv 0.704 (theorem: 1/sqrt 2), equal_area 0.56,
+# normalized 0.67, spherified edge 0.66, spherified corner 0.55, icosahedral 0.57, hexagonal 0.55
+S2_C = {"uv": 0.75, "equal_area": 0.75, "normalized_cube": 0.8, "spherified_cube_edge": 0.8,
+        "spherified_cube_corner": 0.7, "icosahedral": 0.7, "hexagonal": 0.7}
 sprobes = s2_probes(20000 if TIER == "quick" else 80000)
 for m in S2M:
     for res in ([10.0, 4.0] if TIER == "quick" else [15.0, 10.0, 4.0, 2.0, 1.0]):
@@ -453,11 +491,12 @@ for m in S2M:
             d, _ = tree.query(Pv)
             ang = np.degrees(2 * np.arcsin(np.clip(d / 2, 0, 1)))
             i = int(np.argmax(ang))
-            key = f"s2cover/{m}/{stratum}"
-            measured[key] = max(measured.get(key, 0), float(ang[i] / res))
-            if ang[i] > S2_C[m] * res:
-                fail(f"s2:cover:{m}", f"direction (stratum {stratum}) is {ang[i]:.3f} deg (> {S2_C[m]} x {res}) from the "
-                     f"nearest mesh point", dict(rep, probe=Pv[i].tolist()))
+            key = f"s2cover/{m}/{stratum}/res={res}"
+            measured[key] = max(measured.get(key, 0), float(ang[i] / s2_cell(m, res)))
+            if ang[i] > S2_C[m] * s2_cell(m, res):
+                fail(f"s2:cover:{m}", f"direction (stratum {stratum}) is {ang[i]:.3f} deg from the nearest mesh point: "
+                     f"more than {S2_C[m]} x the nominal cell {s2_cell(m, res):.2f} deg at resolution {res}",
+                     dict(rep, probe=Pv[i].tolist()))
 
 # ---- reduced fundamental sample
 for G in S._groups:
